@@ -271,6 +271,50 @@ def api_level(ctx, n):
             bad[1] if bad else "")
 
 
+# macros whose expansion changes the define table -- their own entry included: the expansion is still text of the definition
+# that was in force when it was made.  (text of top.sv, needle in the output, the needle's place in the source)
+SELF_CHANGING = [
+    ("`define ONCE wire once_w; `undef ONCE\n`ONCE\nwire tail;\n", "once_w"),
+    ("`define GONE wire gone_w; `undefineall\n`GONE\nwire tail;\n", "gone_w"),
+    ("`define RE wire first_w; \\\n`define RE wire second_w;\n`RE\nwire tail;\n", "first_w"),
+    ("`define A1 wire a1_w; `undef A1 `define A1 wire again_w;\n`A1\n`A1\n", "a1_w"),
+]
+
+
+def self_changing(ctx):
+    import ppx
+    bad = None
+    for t, needle in SELF_CHANGING:
+        pc = ppx.PC({"top.sv": t})
+        c = pc.case("sc", ("text", "origins"))
+        lines = run_harness("api", [c], "c03sc").get("sc", [])
+        ctx.corr_cases += 1
+        if "ok" not in lines:
+            ctx.count("self_changing_" + (lines[1].split()[1] if len(lines) > 1 and lines[1].startswith("err") else "other"))
+            continue
+        text = unhx([l for l in lines if l.startswith("text ")][0].split()[1])
+        org = parse_origins([l for l in lines if l.startswith("origins")][0])
+        src = t.encode()
+        # the LAST occurrence in the output is the expansion (the kept `define line comes first)
+        k = text.rfind(needle.encode())
+        d = src.find(needle.encode())
+        if k < 0:
+            ctx.count("self_changing_needle_not_expanded"); continue
+        ctx.corr_nontrivial.add(sha(t))
+        for j in range(len(needle)):
+            o = org[k + j]
+            line_start = src.rfind(b"`define", 0, d)
+            if o is None or o[0] != "top.sv" or not (line_start <= o[1] <= d + len(needle)):
+                bad = bad or (t, "byte %d of the expansion (%r) has origin %r; the text of the definition stands at %d..%d of top.sv" % (
+                    k + j, needle, o, line_start, d + len(needle)))
+    ctx.obl("search-oracle:expansions of macros that change the define table (their own entry included) keep the origin of the definition they were made from",
+            "oracle", bad is None, bad[1] if bad else "")
+    if bad:
+        rp = write_replay(ctx, "pp-" + sha(bad[0])[:8], {"property": "C03", "kind": "preprocess(top.sv) then origin(i) for every i",
+                          "files": {"top.sv": bad[0]}, "predefs": [], "why": bad[1]})
+        ctx.viol.append(Violation("origin lookup disagrees with where the byte came from: " + bad[1], rp))
+
+
 SV_TEMPLATES = [
     "`define W 8\nmodule m;\n  wire [`W-1:0] w;\n`include \"inc.svh\"\nendmodule\n",
     "module m;\n`ifdef X\n wire a;\n`else\n wire b;  \n`endif   \n  wire c;\nendmodule\n",
@@ -320,6 +364,7 @@ def check(ctx):
     ensure_model(ctx)
     op_level(ctx, 400 if ctx.quick() else 6000)
     api_level(ctx, 200 if ctx.quick() else 3000)
+    self_changing(ctx)
     token_level(ctx)
 
 
